@@ -5,6 +5,10 @@ import Pyunicorn.Lemmas.CouplingQuantile
 import Pyunicorn.Lemmas.CouplingKnn
 import Pyunicorn.Lemmas.Coupling3
 import Pyunicorn.Generated.ArithC10
+import Pyunicorn.Lemmas.Coupling4
+import Pyunicorn.Lemmas.CouplingOccupancy
+import Pyunicorn.Lemmas.CouplingGJ
+import Pyunicorn.Generated.StructC10
 /-!
 # C10 — Similarity and coupling estimates equal reference statistics
 
@@ -1082,5 +1086,186 @@ theorem arith_time_surrogate (T tauMax t p : Nat) (hp : tauMax ≤ p) (hpT : p +
       pureMiTau (t : Int) (tauMax : Int) = (t : Int) - (tauMax : Int) := by
   unfold tsurrIdx tsurrTau ssurrRange pureRange pureMiTau
   refine ⟨by omega, by omega, by omega, rfl, rfl⟩
+
+/-! ## round 4 -/
+
+/-! ### the Schur-complement identity: `PartialCorrelationClimateNetwork` computes partial correlations -/
+
+/-- **the block of the inverse is the inverse of the Schur complement**: for every symmetric `C`
+with right inverse `P` on the indices `< N` and every list of distinct confounds with regular
+pivots, `P` restricted to the remaining indices is a right inverse of the matrix of partial
+covariances `pcovG C zs` there -/
+theorem schur_complement_inverse (N : Nat) (P C : Nat → Nat → Rat) (hC : ∀ a b, C a b = C b a)
+    (hinv : isInverse C P N = true) (zs : List Nat) (hnd : zs.Nodup) (hlt : ∀ z ∈ zs, z < N)
+    (hp : Pivots C zs) (a b : Nat) (ha : a < N) (hb : b < N) (haz : a ∉ zs) (hbz : b ∉ zs) :
+    sumTo N (fun k => if k ∈ zs then 0 else pcovG C zs a k * P k b) = if a = b then 1 else 0 :=
+  schur_inv N P C hC ((isInverse_iff C P N).mp hinv) zs hnd hlt hp a b ha hb haz hbz
+
+/-- a covariance (Gram) matrix that has an inverse has **no vanishing pivot**, whatever the order in
+which the confounds are eliminated: the hypothesis `Pivots` is not needed for it -/
+theorem cov_pivots_regular (n N : Nat) (r : Nat → Nat → Rat) (P : Nat → Nat → Rat)
+    (hinv : isInverse (fun a b => covTo n (r a) (r b)) P N = true) (zs : List Nat) (hnd : zs.Nodup)
+    (hlt : ∀ z ∈ zs, z < N) : Pivots (fun a b => covTo n (r a) (r b)) zs :=
+  gram_pivots n N (fun a k => r a k - meanTo n (r a)) P
+    ((isInverse_iff _ P N).mp hinv) zs hnd hlt
+
+/-- **Schur-complement identity, every `N`**: for every data set whose covariance matrix `C` has the
+(right) inverse `P` — `C · P = I` on the `N` series — entry `(i, j)`, `i ≠ j`, of
+`- P / sqrt(|outer(diag P, diag P)|)` **is** the partial correlation of series `i` and `j` given all
+other series (residual correlation after projecting out the others), as signed squares.  No
+regularity hypothesis: the pivots are non-zero because the inverse exists. -/
+theorem normInv_is_partial_correlation (n N : Nat) (r : Nat → Nat → Rat) (P : Nat → Nat → Rat)
+    (hinv : isInverse (fun a b => covTo n (r a) (r b)) P N = true) (i j : Nat) (hi : i < N)
+    (hj : j < N) (hij : i ≠ j) :
+    normInvSq P i j = parCorrSqG (fun a b => covTo n (r a) (r b)) (othersOf N i j) i j :=
+  normInv_eq_parCorr_gram n N (fun a k => r a k - meanTo n (r a)) P hinv i j hi hj hij
+
+/-- hence the matrix the class returns is bounded off the diagonal -/
+theorem normInv_bounded (n N : Nat) (r : Nat → Nat → Rat) (P : Nat → Nat → Rat)
+    (hinv : isInverse (fun a b => covTo n (r a) (r b)) P N = true) (i j : Nat) (hi : i < N)
+    (hj : j < N) (hij : i ≠ j) : -1 ≤ normInvSq P i j ∧ normInvSq P i j ≤ 1 := by
+  rw [normInv_is_partial_correlation n N r P hinv i j hi hj hij]
+  exact parCorr_bounded n r _ i j
+
+/-- … and symmetric, without assuming that `P` is -/
+theorem normInv_symm_of_inverse (n N : Nat) (r : Nat → Nat → Rat) (P : Nat → Nat → Rat)
+    (hinv : isInverse (fun a b => covTo n (r a) (r b)) P N = true) (i j : Nat) (hi : i < N)
+    (hj : j < N) (hij : i ≠ j) : normInvSq P i j = normInvSq P j i := by
+  rw [normInv_is_partial_correlation n N r P hinv i j hi hj hij,
+    normInv_is_partial_correlation n N r P hinv j i hj hi (Ne.symm hij),
+    parCorr_symm _ (cov_gram_symm n r)]
+  have : othersOf N j i = othersOf N i j := by
+    unfold othersOf; congr 1; funext k; exact Bool.and_comm _ _
+  rw [this]
+
+example : othersOf 5 1 3 = [0, 2, 4] := by decide
+
+/-! ### `gjInverse` (the model of `numpy.linalg.inv`) is correct -/
+
+/-- **Gauss–Jordan elimination returns an inverse**: for every matrix `C` and every `N`, if
+`gjInverse C N` returns `P` then `P · C = I` on the indices `< N` (pivot search, row swap,
+scaling and elimination of the list code, column by column) -/
+theorem gjInverse_correct (C : Nat → Nat → Rat) (N : Nat) (P : Nat → Nat → Rat)
+    (h : gjInverse C N = some P) (i j : Nat) (hi : i < N) (hj : j < N) :
+    sumTo N (fun l => P i l * C l j) = if i = j then 1 else 0 :=
+  gjInverse_left C N P h i j hi hj
+
+/-- for a symmetric `C` the certificate `C · Pᵀ = I` that the driver evaluates per case holds for
+every input -/
+theorem gjInverse_certificate (C : Nat → Nat → Rat) (hC : ∀ a b, C a b = C b a) (N : Nat)
+    (P : Nat → Nat → Rat) (h : gjInverse C N = some P) : isInverse C (fun a b => P b a) N = true :=
+  gjInverse_isInverse C hC N P h
+
+/-- **the executable model of `PartialCorrelationClimateNetwork` computes partial correlations**:
+whenever the elimination succeeds on the covariance matrix of the data, every off-diagonal entry
+of `normInvSq ∘ gjInverse` — what the correspondence compares with
+`- C_inv / sqrt(|outer(diag, diag)|)` of the implementation — is the partial correlation of the two
+series given all others; no per-case certificate is needed any more -/
+theorem model_partial_correlation (n N : Nat) (r : Nat → Nat → Rat) (P : Nat → Nat → Rat)
+    (h : gjInverse (fun a b => covTo n (r a) (r b)) N = some P) (i j : Nat) (hi : i < N)
+    (hj : j < N) (hij : i ≠ j) :
+    normInvSq P i j = parCorrSqG (fun a b => covTo n (r a) (r b)) (othersOf N i j) i j ∧
+      -1 ≤ normInvSq P i j ∧ normInvSq P i j ≤ 1 := by
+  have hcert := gjInverse_certificate _ (cov_gram_symm n r) N P h
+  have h1 := normInv_is_partial_correlation n N r (fun a b => P b a) hcert j i hj hi (Ne.symm hij)
+  have e : normInvSq (fun a b => P b a) j i = normInvSq P i j := by
+    unfold normInvSq; simp only [mul_comm (P j j) (P i i)]
+  have e2 : othersOf N j i = othersOf N i j := by
+    unfold othersOf; congr 1; funext k; exact Bool.and_comm _ _
+  rw [e, e2, parCorr_symm _ (cov_gram_symm n r)] at h1
+  refine ⟨h1, ?_⟩
+  rw [h1]
+  exact parCorr_bounded n r _ i j
+
+/-! ### the Gram table of the Gaussian estimators -/
+
+/-- **the table lookup is the Gram matrix**: the value `itSq` reads through `itGramTab` / `tabFn`
+(the executable model, compared with the implementation) is the partial correlation on the Gram
+*function* of the centred rows -/
+theorem itSq_table_is_gram (x : Nat → Nat → Rat) (T tauMax past : Nat) (mit : Bool) (i j tau : Nat) :
+    itSq x T tauMax past mit i j tau = itSqFn x T tauMax past mit i j tau :=
+  itSq_eq_fn x T tauMax past mit i j tau
+
+/-- **bounded, for the table lookup itself**: every entry of the Gaussian information transfer /
+mutual information model lies in `[-1, 1]` (signed square), for every data set, lag, `past`,
+condition mode -/
+theorem itSq_bounded (x : Nat → Nat → Rat) (T tauMax past : Nat) (mit : Bool) (i j tau : Nat) :
+    -1 ≤ itSq x T tauMax past mit i j tau ∧ itSq x T tauMax past mit i j tau ≤ 1 :=
+  itSq_bounded' x T tauMax past mit i j tau
+
+/-! ### equal occupancy of the quantile bins -/
+
+/-- **equal occupancy**: for a tie-free row of `T = m · bins` samples `_quantile_bin_array` gives
+every symbol `0 … bins-1` to exactly `m` samples and no other symbol to any — the marginal
+entropies of `mutual_information(estimator='binning')` are then `log bins` exactly -/
+theorem qbin_equal_occupancy (row : List Rat) (bins m : Nat) (hb : 1 ≤ bins) (hm : 1 ≤ m)
+    (hT : row.length = m * bins) (hnd : row.Nodup) (a : Int) :
+    qbinOccupancy row bins a = if 0 ≤ a ∧ a < (bins : Int) then m else 0 :=
+  qbinOccupancy_eq row bins m hb hm hT hnd a
+
+example : qbinOccupancy [5, 1, 4, 2, 3, 0] 3 1 = 2 := by decide +kernel
+example : qbinOccupancy [5, 1, 4, 2, 3, 0] 3 3 = 0 := by decide +kernel
+/-- with ties the occupancy is not equal (why `Nodup` is a hypothesis) -/
+example : qbinOccupancy [1, 1, 1, 2, 3, 0] 3 1 = 3 := by decide +kernel
+
+/-! ### the declared type of the lag matrices (`translate/gen_C10.py` reads it) -/
+
+open Pyunicorn.Generated.StructC10 in
+/-- **one type at every site**: `LAG` of `types.py` and `LAG_t` of `types.pxd` are the same signed
+width, and every buffer declaration, allocation, cast and conversion of a lag matrix in `funcnet`
+uses `LAG` / `LAG_t` -/
+theorem lag_dtype_declared :
+    lagBitsPy = lagBitsC ∧ lagSignedPy = true ∧ lagSignedC = true ∧ 1 ≤ lagBitsC ∧
+      (∀ s ∈ lagSites, s.2 = "LAG" ∨ s.2 = "LAG_t") ∧ lagSites.length = 7 := by decide
+
+open Pyunicorn.Generated.StructC10 in
+/-- the model's `wrap8` **is** the store into a cell of the declared type -/
+theorem lag_store_is_declared (z : Int) : wrap8 z = wrapBits lagBitsC z := rfl
+
+open Pyunicorn.Generated.StructC10 in
+/-- the lag entry of `_cross_correlation_max` is the source's expression stored in the declared type,
+and the mirrored lag of `_symmetrize_by_absmax` is the source's `-lag_matrix[I, J]` stored likewise -/
+theorem lag_store_expr (A : Nat → Nat → Nat → Rat) (tauMax cr i j : Nat) (hij : i ≠ j) (l : Int) :
+    (ccMaxEntry A tauMax cr i j).2 = wrapBits lagBitsC
+      (lagStoreExpr tauMax (absmaxScan (crossAt A tauMax cr i j) (tauMax + 1)).2) ∧
+      wrap8 (-l) = wrapBits lagBitsC (symLagExpr l) := by
+  unfold ccMaxEntry
+  rw [if_neg hij]
+  exact ⟨rfl, rfl⟩
+
+open Pyunicorn.Generated.StructC10 in
+/-- **exact iff in range**: all lags `0 … tau_max` survive the store into the declared type iff
+`tau_max ≤ 2^(bits-1) - 1` — with the declared `int8`, iff `tau_max ≤ 127` -/
+theorem lag_store_exact_iff (tauMax : Nat) :
+    (∀ lag : Nat, lag ≤ tauMax → wrapBits lagBitsC (lag : Int) = (lag : Int)) ↔ tauMax ≤ 127 := by
+  constructor
+  · intro h
+    have := (wrapBits_eq_iff lagBitsC (by decide) (tauMax : Int)).mp (h tauMax (Nat.le_refl _))
+    have e : (2 : Int) ^ (lagBitsC - 1) = 128 := by decide
+    rw [e] at this
+    omega
+  · intro h lag hl
+    apply (wrapBits_eq_iff lagBitsC (by decide) (lag : Int)).mpr
+    have e : (2 : Int) ^ (lagBitsC - 1) = 128 := by decide
+    rw [e]
+    omega
+
+open Pyunicorn.Generated.StructC10 in
+/-- **what is read back beyond the range**: a lag `128 … 255` comes back as `lag - 256` (the known
+finding `C10-lag-int8`, for every such lag, not just the observed `150 → -106`); whatever is
+stored, the cell holds a value in `[-128, 127]` -/
+theorem lag_store_wraps (lag : Nat) (h1 : 128 ≤ lag) (h2 : lag ≤ 255) (z : Int) :
+    wrapBits lagBitsC (lag : Int) = (lag : Int) - 256 ∧
+      -128 ≤ wrapBits lagBitsC z ∧ wrapBits lagBitsC z ≤ 127 := by
+  have e : (2 : Int) ^ (lagBitsC - 1) = 128 := by decide
+  have e2 : (2 : Int) ^ lagBitsC = 256 := by decide
+  have hw := wrapBits_above lagBitsC (by decide) (lag : Int) (by rw [e]; omega) (by rw [e]; omega)
+  have hr := wrapBits_range lagBitsC (by decide) z
+  rw [e2] at hw
+  rw [e] at hr
+  exact ⟨hw, hr.1, by omega⟩
+
+example : wrapBits 8 150 = -106 := by decide
+example : wrapBits 16 150 = 150 := by decide
 
 end Pyunicorn.Coupling
